@@ -244,7 +244,10 @@ def _fit_op(case, ctx, op):
     names = Names(w2)
     if not declared and op["op"] == "bayes" and op.get("prior") == "dirichlet" and op.get("pseudo") == "rows":
         return  # pseudo-count arrays are shaped by the declared cardinalities
-    df = make_frame(w2, names, rows2, weights=weights if op.get("weighted") else None)
+    spare = (not declared) and op["jobseed"] % 2 == 0
+    if spare:
+        ctx.probe("categorical_dtype_with_unused_category")
+    df = make_frame(w2, names, rows2, weights=weights if op.get("weighted") else None, spare_category=spare)
     sn = {names.L(v): list(names.states[v]) for v in range(w2["n"])} if declared else None
     model = build_structure(w2, config, names)
     what = op["op"] + (":" + op["prior"] if op["op"] == "bayes" else "")
